@@ -119,6 +119,9 @@ pub fn run_seq(data: &[u8], ctx: &mut Ctx) -> CaseResult {
         _ => Fault::None,
     };
     let fault_at = pick(u, 12);
+    // messages that arrive (and are rejected) before the genuine first answer
+    let n_junk = [0usize, 0, 0, 1, 2, 3][pick(u, 6)];
+    let junk: Vec<usize> = (0..n_junk).map(|_| pick(u, 4)).collect();
     // pattern: true = signed
     let mut pat: Vec<bool> = vec![];
     let first_unsigned = pick(u, 25) == 24;
@@ -240,6 +243,59 @@ pub fn run_seq(data: &[u8], ctx: &mut Ctx) -> CaseResult {
     }
     if first_unsigned {
         ctx.class("first-unsigned");
+    }
+
+    // History before the first genuine answer: rejected messages must not
+    // change the state of the sequence. While no signed first answer has
+    // been accepted every unsigned message is refused (RFC 8945 §5.3.1: the
+    // first message MUST be signed), however many arrive; after rejections
+    // that happen before any digest work (no TSIG, duplicate TSIG, another
+    // key's name) the genuine first answer still verifies (the loop below).
+    for (j, kind) in junk.iter().enumerate() {
+        let p = SignParams { time: t_sign, fudge: 300, error: 0, other: vec![], mac_len: ks.eff_sign() };
+        let base = tiny_message(id, 0x8400, 0x40 + j as u8, j % 2);
+        let (wire, want): (Vec<u8>, O) = match kind {
+            0 => (base, O::SrvUnsigned),
+            1 => {
+                let mut other = ks.rk.clone();
+                other.name = vec![b"not".to_vec(), b"this".to_vec(), b"key".to_vec()];
+                if rs::names_equal(&other.name, &kc.rk.name) {
+                    other.name.push(b"x".to_vec());
+                }
+                (rs::sign(&other, &other.name, &Prior::Mac(&req_mac), &[], &base, &p, false).0, O::BadKey)
+            }
+            2 => {
+                let s1 = rs::sign(&ks.rk, &ks.rk.name, &Prior::Mac(&req_mac), &[], &base, &p, false).0;
+                let sp = rs::split(&s1).unwrap();
+                let mut v = s1.clone();
+                v.extend_from_slice(&s1[sp.start..]);
+                let ar = u16::from_be_bytes([v[10], v[11]]) + 1;
+                v[10..12].copy_from_slice(&ar.to_be_bytes());
+                (v, O::FormErr)
+            }
+            _ => {
+                // wrong MAC: rejected; only the "still no unsigned messages" rule is checked afterwards
+                let mut bad = ks.rk.clone();
+                bad.secret.push(1);
+                (rs::sign(&bad, &ks.rk.name, &Prior::Mac(&req_mac), &[], &base, &p, false).0, if ks.eff_sign() < kc.eff_min() { O::BadTrunc } else { O::BadSig })
+            }
+        };
+        let mut m = Message::from_octets(wire.clone()).unwrap();
+        let got = o_client(&client.answer(&mut m, t48(t_sign)));
+        vensure!(got == want, format!("client-sequence:message-before-first-answer-{:?}-expected-{:?}", got, want), "junk message {j} (kind {kind}) of {junk:?}: {}", hex(&wire));
+        ctx.class("rejected-message-before-first-answer");
+        if j >= 1 {
+            ctx.class("second-rejected-message-before-first-answer");
+        }
+        if *kind == 3 {
+            let mut um = Message::from_octets(tiny_message(id, 0x8400, 0x50, 0)).unwrap();
+            let g = o_client(&client.answer(&mut um, t48(t_sign)));
+            vensure!(g == O::SrvUnsigned, format!("client-sequence:unsigned-message-after-rejected-first-{:?}-expected-SrvUnsigned", g), "junk {junk:?}");
+            return Ok(());
+        }
+    }
+    if !junk.is_empty() {
+        ctx.class("history-continues-after-rejected-first");
     }
 
     // model state
